@@ -120,4 +120,409 @@ theorem mergeRuns_spec (c : Cmp α) (p L R r : List α) (left mid right : Nat) (
     rfl rfl hl (by simp; omega) (by simp; omega) (by simp) (by omega)
   simpa [List.append_assoc] using this
 
+/-! ### insertion_sort -/
+
+theorem swapR_adjacent (u v : List α) (x y : α) (j : Nat) (hj : j = u.length) :
+    swapR (u ++ y :: x :: v) (j + 1) j = .ok (u ++ x :: y :: v) := by
+  subst hj
+  simp [swapR]
+
+/-- the inner `while` of `insertion_sort`: `x` (at position `j`) sinks into the run `s1` to its left -/
+theorem insInner_spec {c : Cmp α} (h : c.Lawful) (p : List α) (x : α) : ∀ (m : Nat) (s1 s2 : List α) (j : Nat),
+    s1.length = m → j = p.length + s1.length →
+    ∃ t, insInner c p.length j (p ++ s1 ++ x :: s2) = .ok (p ++ t ++ s2) ∧ t.Perm (s1 ++ [x]) ∧
+      (Sorted c s1 → Sorted c t) := by
+  intro m
+  induction m with
+  | zero =>
+    intro s1 s2 j hs hj
+    have : s1 = [] := List.length_eq_zero_iff.1 hs
+    subst this
+    refine ⟨[x], ?_, .refl _, fun _ => List.pairwise_singleton _ _⟩
+    simp only [List.length_nil, Nat.add_zero] at hj
+    subst hj
+    cases hp : p.length with
+    | zero => simp [insInner]
+    | succ n => simp [insInner]
+  | succ m ih =>
+    intro s1 s2 j hs hj
+    obtain ⟨s1', y, rfl⟩ : ∃ s1' y, s1 = s1' ++ [y] := by
+      have hne : s1 ≠ [] := by intro h0; rw [h0] at hs; cases hs
+      exact ⟨s1.dropLast, s1.getLast hne, (List.dropLast_concat_getLast hne).symm⟩
+    simp only [List.length_append, List.length_singleton] at hs hj
+    obtain ⟨j', rfl⟩ : ∃ j', j = j' + 1 := ⟨p.length + s1'.length, by omega⟩
+    have hj' : j' = (p ++ s1').length := by simp; omega
+    have harr : p ++ (s1' ++ [y]) ++ x :: s2 = (p ++ s1') ++ y :: x :: s2 := by simp
+    rw [harr]
+    unfold insInner
+    rw [if_pos (by omega)]
+    have e1 : Res.idx ((p ++ s1') ++ y :: x :: s2) (j' + 1) = .ok x := by
+      have := idx_append_cons (p ++ s1' ++ [y]) s2 x (j' + 1) (by simp; omega)
+      simpa using this
+    rw [e1, Res.bind_ok, idx_append_cons (p ++ s1') (x :: s2) y j' hj', Res.bind_ok]
+    cases hlt : c.lt x y
+    · simp only [Bool.false_eq_true, ↓reduceIte]
+      refine ⟨s1' ++ [y] ++ [x], by simp, .refl _, ?_⟩
+      intro hs1
+      have hyx := h.le_of_not_lt hlt
+      unfold Sorted at *
+      rw [List.pairwise_append] at hs1 ⊢
+      refine ⟨by rw [List.pairwise_append]; exact hs1, List.pairwise_singleton _ _, ?_⟩
+      intro a ha b hb
+      simp only [List.mem_singleton] at hb; subst hb
+      rcases List.mem_append.1 ha with ha | ha
+      · exact h.le_trans _ _ _ (hs1.2.2 a ha y (by simp)) hyx
+      · simp only [List.mem_singleton] at ha; subst ha; exact hyx
+    · simp only [↓reduceIte]
+      rw [swapR_adjacent (p ++ s1') s2 x y j' hj', Res.bind_ok]
+      obtain ⟨t', ht, hperm, hsort⟩ := ih s1' (y :: s2) j' (by omega) (by omega)
+      have harr2 : p ++ s1' ++ x :: y :: s2 = p ++ s1' ++ x :: (y :: s2) := rfl
+      rw [harr2, ht]
+      refine ⟨t' ++ [y], by simp, ?_, ?_⟩
+      · refine (hperm.append_right [y]).trans ?_
+        simp only [List.append_assoc]
+        exact List.Perm.append_left s1' (List.Perm.swap y x [])
+      · intro hs1
+        have hxy := h.le_of_lt hlt
+        unfold Sorted at *
+        rw [List.pairwise_append] at hs1 ⊢
+        refine ⟨hsort hs1.1, List.pairwise_singleton _ _, ?_⟩
+        intro a ha b hb
+        simp only [List.mem_singleton] at hb; subst hb
+        have ha' := hperm.mem_iff.1 ha
+        rcases List.mem_append.1 ha' with ha' | ha'
+        · exact hs1.2.2 a ha' b (by simp)
+        · simp only [List.mem_singleton] at ha'; subst ha'; exact hxy
+
+/-- the outer `for` of `insertion_sort` -/
+theorem insOuter_spec {c : Cmp α} (h : c.Lawful) (p : List α) : ∀ (cnt : Nat) (s rest : List α) (i : Nat),
+    i = p.length + s.length → cnt ≤ rest.length → Sorted c s →
+    ∃ s', insOuter c p.length cnt i (p ++ s ++ rest) = .ok (p ++ s' ++ rest.drop cnt) ∧
+      s'.Perm (s ++ rest.take cnt) ∧ Sorted c s' := by
+  intro cnt
+  induction cnt with
+  | zero => intro s rest i _ _ hs; exact ⟨s, by simp [insOuter], by simp, hs⟩
+  | succ cnt ih =>
+    intro s rest i hi hcnt hs
+    match rest, hcnt with
+    | x :: rest', hcnt =>
+      unfold insOuter
+      obtain ⟨t, ht, hperm, hsort⟩ := insInner_spec h p x s.length s rest' i rfl hi
+      rw [ht, Res.bind_ok]
+      obtain ⟨s', hs', hperm', hsort'⟩ := ih t rest' (i + 1)
+        (by have := hperm.length_eq; simp at this; omega) (by simp at hcnt; omega) (hsort hs)
+      refine ⟨s', by simpa using hs', ?_, hsort'⟩
+      refine hperm'.trans ?_
+      simp only [List.take_succ_cons]
+      refine (hperm.append_right _).trans ?_
+      simp
+
+theorem insertionSort_spec {c : Cmp α} (h : c.Lawful) (p ch r : List α) (left right : Nat) (hch : ch ≠ [])
+    (hl : left = p.length) (hr : right + 1 = p.length + ch.length) :
+    ∃ S, insertionSort c (p ++ ch ++ r) left right = .ok (p ++ S ++ r) ∧ S.Perm ch ∧ Sorted c S := by
+  match ch, hch with
+  | x0 :: ch', _ =>
+    subst hl
+    unfold insertionSort
+    simp only [List.length_cons] at hr
+    obtain ⟨s', hs', hperm, hsort⟩ := insOuter_spec h p (right - p.length) [x0] (ch' ++ r) (p.length + 1)
+      (by simp) (by simp; omega) (List.pairwise_singleton _ _)
+    have e1 : right - p.length = ch'.length := by omega
+    rw [e1] at hs' hperm
+    simp only [List.drop_left, List.take_left] at hs' hperm
+    refine ⟨s', ?_, by simpa using hperm, hsort⟩
+    rw [e1]
+    simpa [List.append_assoc] using hs'
+
+
+/-! ### the `step_by` loops, chunk by chunk -/
+
+/-- `rest'` is obtained from `q` by replacing every chunk of `step` elements (the last one may be shorter) by a
+`P`-related chunk -/
+inductive ChunkRel (P : List α → List α → Prop) (step : Nat) : List α → List α → Prop
+  | nil : ChunkRel P step [] []
+  | cons {q M rest' : List α} : q ≠ [] → P (q.take step) M → ChunkRel P step (q.drop step) rest' →
+      ChunkRel P step q (M ++ rest')
+
+theorem ChunkRel.of_nil {P : List α → List α → Prop} {step : Nat} {rest' : List α}
+    (h : ChunkRel P step [] rest') : rest' = [] := by
+  cases h with
+  | nil => rfl
+  | cons hq _ _ => exact absurd rfl hq
+
+/-- consecutive runs of `s` elements (the last one may be shorter) are each sorted -/
+inductive Runs (c : Cmp α) (s : Nat) : List α → Prop
+  | nil : Runs c s []
+  | cons {q : List α} : q ≠ [] → Sorted c (q.take s) → Runs c s (q.drop s) → Runs c s q
+
+theorem Runs.inv {c : Cmp α} {s : Nat} {q : List α} (h : Runs c s q) : Sorted c (q.take s) ∧ Runs c s (q.drop s) := by
+  cases h with
+  | nil => exact ⟨by simp [Sorted], by simpa using Runs.nil⟩
+  | cons _ h1 h2 => exact ⟨h1, h2⟩
+
+theorem Runs.sorted_of_length_le {c : Cmp α} {s : Nat} {q : List α} (h : Runs c s q) (hl : q.length ≤ s) : Sorted c q := by
+  have := h.inv.1
+  rwa [List.take_of_length_le hl] at this
+
+theorem stepLoop_chunks (body : List α → Nat → Res (List α)) (P : List α → List α → Prop) (n step : Nat)
+    (hstep : 1 ≤ step) (hP : ∀ ch M, P ch M → M.length = ch.length)
+    (hbody : ∀ (p ch r : List α) (cur : Nat), cur = p.length → (p ++ ch ++ r).length = n → ch ≠ [] →
+      (ch.length = step ∨ (ch.length < step ∧ r = [])) →
+      ∃ M, body (p ++ ch ++ r) cur = .ok (p ++ M ++ r) ∧ P ch M) :
+    ∀ (fuel : Nat) (p q : List α) (cur : Nat), (p ++ q).length = n → p.length ≤ cur → (q ≠ [] → cur = p.length) →
+      1 ≤ fuel → n + 1 ≤ fuel + cur →
+      ∃ rest', stepLoop body n step fuel cur (p ++ q) = .ok (p ++ rest') ∧ ChunkRel P step q rest' := by
+  intro fuel
+  induction fuel with
+  | zero => intro p q cur _ _ _ h1; omega
+  | succ f ih =>
+    intro p q cur hn hp hq hf1 hf
+    unfold stepLoop
+    by_cases hq0 : q = []
+    · subst hq0
+      simp only [List.append_nil] at hn ⊢
+      rw [if_neg (by omega)]
+      exact ⟨[], by simp, .nil⟩
+    · have hcur := hq hq0
+      have hqlen : 0 < q.length := List.length_pos_iff.2 hq0
+      simp only [List.length_append] at hn
+      rw [if_pos (by omega)]
+      have hsplit : p ++ q = p ++ q.take step ++ q.drop step := by simp
+      have hch : q.take step ≠ [] := by
+        intro h0
+        have := congrArg List.length h0
+        rw [List.length_take, List.length_nil] at this; omega
+      have hn' : (p ++ q.take step ++ q.drop step).length = n := by rw [← hsplit]; simpa using hn
+      obtain ⟨M, hM, hPM⟩ := hbody p (q.take step) (q.drop step) cur hcur hn' hch (by
+        simp only [List.length_take]
+        by_cases hle : step ≤ q.length
+        · left; omega
+        · right; exact ⟨by omega, List.drop_of_length_le (by omega)⟩)
+      rw [hsplit, hM, Res.bind_ok]
+      have hMl := hP _ _ hPM
+      simp only [List.length_take] at hMl
+      obtain ⟨rest'', hr, hrel⟩ := ih (p ++ M) (q.drop step) (cur + step) (by simp; omega) (by simp; omega)
+        (by
+          intro hne
+          have : step < q.length := by
+            rcases Nat.lt_or_ge step q.length with h | h
+            · exact h
+            · exact absurd (List.drop_of_length_le h) hne
+          simp; omega)
+        (by omega) (by omega)
+      refine ⟨M ++ rest'', by simpa [List.append_assoc] using hr, .cons hq0 hPM hrel⟩
+
+theorem forStepBy_chunks (body : List α → Nat → Res (List α)) (P : List α → List α → Prop) (n step : Nat)
+    (hstep : 1 ≤ step) (hP : ∀ ch M, P ch M → M.length = ch.length)
+    (hbody : ∀ (p ch r : List α) (cur : Nat), cur = p.length → (p ++ ch ++ r).length = n → ch ≠ [] →
+      (ch.length = step ∨ (ch.length < step ∧ r = [])) →
+      ∃ M, body (p ++ ch ++ r) cur = .ok (p ++ M ++ r) ∧ P ch M)
+    (a : List α) (ha : a.length = n) :
+    ∃ a', forStepBy body n step a = .ok a' ∧ ChunkRel P step a a' := by
+  unfold forStepBy
+  rw [if_neg (by omega)]
+  have := stepLoop_chunks body P n step hstep hP hbody (n + 1) [] a 0 (by simpa using ha) (by simp) (by simp) (by omega) (by omega)
+  simpa using this
+
+theorem ChunkRel.perm {P : List α → List α → Prop} {step : Nat} (hP : ∀ ch M, P ch M → M.Perm ch)
+    {q rest' : List α} (h : ChunkRel P step q rest') : rest'.Perm q := by
+  induction h with
+  | nil => exact .refl _
+  | cons _ hPM _ ih =>
+    refine ((hP _ _ hPM).append ih).trans ?_
+    rw [List.take_append_drop]
+
+/-- `take`/`drop` of a freshly produced chunk followed by the rest -/
+theorem take_drop_chunk (M rest' : List α) (step qlen : Nat) (hM : M.length = min step qlen)
+    (hr : qlen ≤ step → rest' = []) :
+    (M ++ rest').take step = M ∧ (M ++ rest').drop step = rest' := by
+  by_cases hle : qlen ≤ step
+  · rw [hr hle]
+    simp only [List.append_nil]
+    exact ⟨List.take_of_length_le (by omega), List.drop_of_length_le (by omega)⟩
+  · exact ⟨List.take_left' (by omega), List.drop_left' (by omega)⟩
+
+theorem ChunkRel.rest_nil {P : List α → List α → Prop} {step : Nat} {q rest' : List α}
+    (h : ChunkRel P step (q.drop step) rest') (hl : q.length ≤ step) : rest' = [] := by
+  rw [List.drop_of_length_le hl] at h; exact h.of_nil
+
+/-- after the insertion phase every run of `step` elements is sorted -/
+theorem ChunkRel.runs_of_sorted {c : Cmp α} {step : Nat} {q rest' : List α}
+    (h : ChunkRel (fun ch M => M.Perm ch ∧ Sorted c M) step q rest') : Runs c step rest' := by
+  induction h with
+  | nil => exact .nil
+  | @cons q M rest' hq hPM hrel ih =>
+    have hMl : M.length = min step q.length := by have := hPM.1.length_eq; simpa using this
+    have hql : 0 < q.length := List.length_pos_iff.2 hq
+    by_cases hs0 : step = 0
+    · -- degenerate, never used: `take 0` is sorted and `drop 0` is the list itself
+      subst hs0
+      have hM0 : M = [] := List.length_eq_zero_iff.1 (by omega)
+      subst hM0
+      simpa using ih
+    · have hne : M ++ rest' ≠ [] := by
+        intro h0
+        have := congrArg List.length h0
+        simp only [List.length_append, List.length_nil] at this; omega
+      obtain ⟨ht, hd⟩ := take_drop_chunk M rest' step q.length hMl (fun hle => hrel.rest_nil hle)
+      exact .cons hne (by rw [ht]; exact hPM.2) (by rw [hd]; exact ih)
+
+/-- one doubling pass turns sorted runs of `s` into sorted runs of `2 s` -/
+theorem ChunkRel.runs_of_merge {c : Cmp α} (hc : c.Lawful) {s : Nat} (hs : 1 ≤ s) {q rest' : List α}
+    (h : ChunkRel (fun ch M => M = List.merge (ch.take s) (ch.drop s) c.le) (2 * s) q rest') (hr : Runs c s q) :
+    Runs c (2 * s) rest' := by
+  induction h with
+  | nil => exact .nil
+  | @cons q M rest' hq hPM hrel ih =>
+    have hql : 0 < q.length := List.length_pos_iff.2 hq
+    obtain ⟨h1, hr1⟩ := hr.inv
+    obtain ⟨h2, hr2⟩ := hr1.inv
+    have e1 : (q.take (2 * s)).take s = q.take s := by rw [List.take_take]; congr 1; omega
+    have e2 : (q.take (2 * s)).drop s = (q.drop s).take s := by rw [List.drop_take]; congr 1; omega
+    have e3 : (q.drop s).drop s = q.drop (2 * s) := by rw [List.drop_drop]; congr 1; omega
+    rw [e1, e2] at hPM
+    rw [e3] at hr2
+    have hMs : Sorted c M := by
+      rw [hPM]
+      exact List.pairwise_merge (le := c.le) (fun a b d => hc.le_trans a b d)
+        (fun a b => by rcases hc.le_total a b with h' | h' <;> simp [h']) _ _ h1 h2
+    have hMl : M.length = min (2 * s) q.length := by
+      rw [hPM, List.length_merge, List.length_take, List.length_take, List.length_drop]; omega
+    have hne : M ++ rest' ≠ [] := by
+      intro h0
+      have := congrArg List.length h0
+      simp only [List.length_append, List.length_nil] at this; omega
+    obtain ⟨ht, hd⟩ := take_drop_chunk M rest' (2 * s) q.length hMl (fun hle => hrel.rest_nil hle)
+    exact .cons hne (by rw [ht]; exact hMs) (by rw [hd]; exact ih hr2)
+
+/-! ### the two loop bodies -/
+
+theorem insBody_spec {c : Cmp α} (h : c.Lawful) (n minRun : Nat) (hm : 1 ≤ minRun)
+    (p ch r : List α) (cur : Nat) (hcur : cur = p.length) (hn : (p ++ ch ++ r).length = n) (hch : ch ≠ [])
+    (hlen : ch.length = minRun ∨ (ch.length < minRun ∧ r = [])) :
+    ∃ M, insertionSort c (p ++ ch ++ r) cur (min (cur + minRun - 1) (n - 1)) = .ok (p ++ M ++ r) ∧
+      (M.Perm ch ∧ Sorted c M) := by
+  have hcl : 0 < ch.length := List.length_pos_iff.2 hch
+  simp only [List.length_append] at hn
+  have hright : min (cur + minRun - 1) (n - 1) + 1 = p.length + ch.length := by
+    rcases hlen with h1 | ⟨h1, h2⟩
+    · omega
+    · subst h2; simp only [List.length_nil] at hn; omega
+  obtain ⟨S, hS, hp, hs⟩ := insertionSort_spec h p ch r cur _ hch hcur hright
+  exact ⟨S, hS, hp, hs⟩
+
+theorem mergeBody_spec (c : Cmp α) (n size : Nat) (hs : 1 ≤ size)
+    (p ch r : List α) (cur : Nat) (hcur : cur = p.length) (hn : (p ++ ch ++ r).length = n) (hch : ch ≠ [])
+    (hlen : ch.length = 2 * size ∨ (ch.length < 2 * size ∧ r = [])) :
+    ∃ M, (if min (n - 1) (cur + size - 1) < min (cur + 2 * size - 1) (n - 1)
+          then mergeRuns c (p ++ ch ++ r) cur (min (n - 1) (cur + size - 1)) (min (cur + 2 * size - 1) (n - 1))
+          else .ok (p ++ ch ++ r)) = .ok (p ++ M ++ r) ∧
+      M = List.merge (ch.take size) (ch.drop size) c.le := by
+  have hcl : 0 < ch.length := List.length_pos_iff.2 hch
+  simp only [List.length_append] at hn
+  refine ⟨_, ?_, rfl⟩
+  by_cases hshort : ch.length ≤ size
+  · -- a single (possibly short) run: nothing to merge
+    have hr : r = [] := by
+      rcases hlen with h1 | ⟨_, h2⟩
+      · omega
+      · exact h2
+    subst hr
+    simp only [List.length_nil] at hn
+    rw [if_neg (by omega), List.take_of_length_le hshort, List.drop_of_length_le hshort]
+    simp
+  · have hmid : min (n - 1) (cur + size - 1) = cur + size - 1 := by omega
+    have hright : min (cur + 2 * size - 1) (n - 1) = cur + ch.length - 1 := by
+      rcases hlen with h1 | ⟨h1, h2⟩
+      · omega
+      · subst h2; simp only [List.length_nil] at hn; omega
+    rw [hmid, hright, if_pos (by omega)]
+    have hsplit : ch = ch.take size ++ ch.drop size := (List.take_append_drop size ch).symm
+    have hL : ch.take size ≠ [] := by
+      intro h0
+      have := congrArg List.length h0
+      rw [List.length_take, List.length_nil] at this; omega
+    have := mergeRuns_spec c p (ch.take size) (ch.drop size) r cur (cur + size - 1) (cur + ch.length - 1) hcur hL
+      (by rw [List.length_take]; omega) (by rw [List.length_drop]; omega)
+    rw [List.append_assoc p, ← hsplit] at this
+    exact this
+
+/-! ### `calc_min_run`, the doubling loop, `tim_sort` -/
+
+theorem calcMinRunLoop_spec : ∀ (fuel n r : Nat), n + 1 ≤ fuel →
+    ∃ m, calcMinRunLoop fuel n r = .ok m ∧ (1 ≤ n → 1 ≤ m) := by
+  intro fuel
+  induction fuel with
+  | zero => intro n r h; omega
+  | succ f ih =>
+    intro n r hf
+    unfold calcMinRunLoop
+    by_cases h32 : n ≥ 32
+    · rw [if_pos h32]
+      have hdiv : n >>> 1 = n / 2 := by simp [Nat.shiftRight_eq_div_pow]
+      obtain ⟨m, hm, hm1⟩ := ih (n >>> 1) (r ||| (n &&& 1)) (by rw [hdiv]; omega)
+      exact ⟨m, hm, fun _ => hm1 (by rw [hdiv]; omega)⟩
+    · rw [if_neg h32]
+      exact ⟨n + r, rfl, fun h => by omega⟩
+
+theorem calcMinRun_spec (n : Nat) : ∃ m, calcMinRun n = .ok m ∧ (1 ≤ n → 1 ≤ m) :=
+  calcMinRunLoop_spec (n + 1) n 0 (Nat.le_refl _)
+
+theorem mergePass_spec {c : Cmp α} (h : c.Lawful) (n size : Nat) (hs : 1 ≤ size) (a : List α) (ha : a.length = n)
+    (hr : Runs c size a) :
+    ∃ a', mergePass c n size a = .ok a' ∧ a'.Perm a ∧ Runs c (2 * size) a' := by
+  unfold mergePass
+  obtain ⟨a', ha', hrel⟩ := forStepBy_chunks
+    (fun a left =>
+      if min (n - 1) (left + size - 1) < min (left + 2 * size - 1) (n - 1)
+      then mergeRuns c a left (min (n - 1) (left + size - 1)) (min (left + 2 * size - 1) (n - 1)) else .ok a)
+    (fun ch M => M = List.merge (ch.take size) (ch.drop size) c.le) n (2 * size) (by omega)
+    (fun ch M hM => by
+      rw [hM, List.length_merge, List.length_take, List.length_drop]; omega)
+    (fun p ch r cur hcur hn hch hlen => mergeBody_spec c n size hs p ch r cur hcur hn hch hlen) a ha
+  refine ⟨a', ha', ?_, hrel.runs_of_merge h hs hr⟩
+  refine hrel.perm (fun ch M hM => ?_)
+  rw [hM]
+  refine (List.merge_perm_append (le := c.le)).trans ?_
+  rw [List.take_append_drop]
+
+theorem sizeLoop_spec {c : Cmp α} (h : c.Lawful) (n : Nat) : ∀ (fuel size : Nat) (a : List α),
+    a.length = n → 1 ≤ size → Runs c size a → 1 ≤ fuel → n + 1 ≤ fuel + size →
+    ∃ a', sizeLoop c n fuel size a = .ok a' ∧ a'.Perm a ∧ Sorted c a' := by
+  intro fuel
+  induction fuel with
+  | zero => intro size a _ _ _ h1; omega
+  | succ f ih =>
+    intro size a ha hs hr hf1 hf
+    unfold sizeLoop
+    by_cases hlt : size < n
+    · rw [if_pos hlt]
+      obtain ⟨a1, hp, hperm, hr1⟩ := mergePass_spec h n size hs a ha hr
+      rw [hp, Res.bind_ok]
+      have e : size * 2 = 2 * size := Nat.mul_comm _ _
+      rw [e]
+      obtain ⟨a2, h2, hperm2, hs2⟩ := ih (2 * size) a1 (by rw [hperm.length_eq]; exact ha) (by omega) hr1 (by omega) (by omega)
+      exact ⟨a2, h2, hperm2.trans hperm, hs2⟩
+    · rw [if_neg hlt]
+      exact ⟨a, rfl, .refl _, hr.sorted_of_length_le (by omega)⟩
+
+theorem timSort_spec {c : Cmp α} (h : c.Lawful) (xs : List α) :
+    ∃ s, timSort c xs = .ok s ∧ s.Perm xs ∧ Sorted c s := by
+  unfold timSort
+  by_cases h1 : xs.length ≤ 1
+  · rw [if_pos h1]; exact ⟨xs, rfl, .refl _, sorted_of_length_le_one c h1⟩
+  · rw [if_neg h1]
+    obtain ⟨m, hm, hm1⟩ := calcMinRun_spec xs.length
+    have hm1 := hm1 (by omega)
+    simp only [hm, Res.bind_ok]
+    obtain ⟨a1, ha1, hrel⟩ := forStepBy_chunks
+      (fun a start => insertionSort c a start (min (start + m - 1) (xs.length - 1)))
+      (fun ch M => M.Perm ch ∧ Sorted c M) xs.length m hm1 (fun ch M hM => hM.1.length_eq)
+      (fun p ch r cur hcur hn hch hlen => insBody_spec h xs.length m hm1 p ch r cur hcur hn hch hlen) xs rfl
+    rw [ha1, Res.bind_ok]
+    have hperm1 : a1.Perm xs := hrel.perm (fun ch M hM => hM.1)
+    obtain ⟨a2, ha2, hperm2, hs2⟩ := sizeLoop_spec h xs.length (xs.length + 1) m a1 hperm1.length_eq hm1
+      hrel.runs_of_sorted (by omega) (by omega)
+    exact ⟨a2, ha2, hperm2.trans hperm1, hs2⟩
+
 end ArrModel.Sort
